@@ -300,6 +300,10 @@ def normalize_url(
         if trailing_slash and not strip_trailing_slash:
             path = path + "/"
 
+    # NOTE: unquoting first, so that escaped spellings ("index%2Ehtml",
+    # "%75tm_source=x") are handled like the unescaped ones below
+    path = safely_unquote_path(path)
+
     # Handling Google AMP suffixes
     if normalize_amp:
         path = AMP_SUFFIXES_RE.sub("", path)
@@ -336,7 +340,7 @@ def normalize_url(
         # TODO: should be dedupe query items?
         qsl = [
             item
-            for item in safe_qsl_iter(query)
+            for item in safely_unquote_qsl(safe_qsl_iter(query))
             if not should_strip_query_item(
                 item,
                 normalize_amp=normalize_amp,
@@ -397,13 +401,7 @@ def normalize_url(
 
     if quoted:
         path = safely_quote(path)
-    else:
-        path = safely_unquote_path(path)
-
-    if quoted:
         qsl = safely_quote_qsl(qsl)
-    else:
-        qsl = safely_unquote_qsl(qsl)
 
     query = safe_serialize_qsl(qsl)
 
